@@ -155,9 +155,9 @@ def main() -> int:
     for a in ("AddAutoShape", "AddChart", "SaveReopen", "ReadBack"):
         if not counts.get(a):
             raise E.MachineryError("vacuous action %s: %s" % (a, counts))
-    want = 3 * (ev["shapes"] + ev["writable"])
+    want = 4 * (ev["shapes"] + ev["writable"])
     if len(paths) != want:
-        raise E.MachineryError("emitted %d complete paths, expected %d (every item on the three hosts)" % (len(paths), want))
+        raise E.MachineryError("emitted %d complete paths, expected %d (every item on the four hosts)" % (len(paths), want))
 
     # ---- replay every path through the real library
     jobs = [("%s:%s:%s" % (p[0]["op"], p[0]["item"], p[0]["host"]), p) for p in paths]
